@@ -390,7 +390,11 @@ pub fn run_batch(prop: Box<dyn Property>, tier: Tier) -> BatchResult {
     let mut violations = 0;
     g.found.sort_by_key(|f| f.index);
     let found: Vec<Found> = std::mem::take(&mut g.found);
-    if let Some(f) = found.into_iter().next() {
+    // the lowest-indexed violation that reproduces in a fresh process is the one reported; one
+    // that does not reproduce (state carried over from an earlier scenario of the same worker)
+    // is set aside, and only if none of the first few reproduces is that a harness error
+    let mut unreproduced: Vec<String> = Vec::new();
+    for f in found.into_iter().take(4) {
         violations = 1;
         let tmp = worker_tmp("shrink");
         let (min_case, detail, attempts) = shrink(
@@ -423,6 +427,7 @@ pub fn run_batch(prop: Box<dyn Property>, tier: Tier) -> BatchResult {
             );
             println!("  detail: {detail}");
             exit = 1;
+            break;
         } else {
             // fall back to the unminimised case
             let path2 = write_replay(&root, id, f.index + 1_000_000_000, seed, &f.case, &f.violation.rule, &f.violation.detail);
@@ -442,14 +447,20 @@ pub fn run_batch(prop: Box<dyn Property>, tier: Tier) -> BatchResult {
                 );
                 println!("  detail: {}", f.violation.detail);
                 exit = 1;
+                break;
             } else {
-                println!(
-                    "HARNESS-ERROR property={id} a violation of {} at case {} did not reproduce in a fresh process",
-                    f.violation.rule, f.index
-                );
-                exit = 2;
+                unreproduced.push(format!("{} at case {}", f.violation.rule, f.index));
             }
         }
+    }
+    if exit == 0 && !unreproduced.is_empty() {
+        println!(
+            "HARNESS-ERROR property={id} violation(s) that did not reproduce in a fresh process: {}",
+            unreproduced.join(", ")
+        );
+        exit = 2;
+    } else if !unreproduced.is_empty() {
+        println!("  note: set aside as not reproducible in a fresh process: {}", unreproduced.join(", "));
     }
     // evidence
     g.samples.sort_by_key(|s| s.0);
